@@ -368,6 +368,20 @@ have dnz (i : 'I_n) : mx_of n n (d_tril s) i i != 0 by rewrite gt_eqF // pos.
 by rewrite -(dense_lsolve_sound Num.sqrt (fun x y : R => x < y) c y dnz) (tril_lower low).
 Qed.
 
+Lemma direct_solve_tri_T c (y : mat R) : Lm^T *m mx_of n c (d_solve_tri rops c s true y) = mx_of n c y.
+Proof.
+have [[low pos] _] := direct_factor.
+have dnz (i : 'I_n) : mx_of n n (d_tril s) i i != 0 by rewrite gt_eqF // pos.
+by rewrite -(dense_ltsolve_sound Num.sqrt (fun x y : R => x < y) c y dnz) (tril_lower low).
+Qed.
+(* alpha2 of GaussianProcess._condition: solve_triangular(solve_triangular(r), transpose=True) is S^-1 r *)
+Theorem direct_alpha2 c (r : mat R) :
+  Sm *m mx_of n c (d_solve_tri rops c s true (d_solve_tri rops c s false r)) = mx_of n c r.
+Proof.
+have [_ LLt] := direct_factor.
+by rewrite -LLt -mulmxA direct_solve_tri_T direct_solve_tri.
+Qed.
+
 (* covariance of the conditional: K** + N* - A^T A with A = L^-1 K*  is  K** + N* - K*^T S^-1 K* *)
 Theorem cond_cov_direct nt (Ks Kss : mat R) (Nstar : noise R) (Nsm : 'M[R]_nt) (X : 'M[R]_(n, nt)) :
   mx_of nt nt (nadd rops Nstar Kss) = mx_of nt nt Kss + Nsm ->
